@@ -658,8 +658,8 @@ def ecompass(a: np.ndarray, m: np.ndarray, frame: str = 'ENU', representation: s
     for item in [a, m]:
         if not isinstance(item, (np.ndarray, list, tuple)):
             raise TypeError("Both inputs a and m must be arrays.")
-    a = np.copy(a)
-    m = np.copy(m)
+    a = np.array(a, dtype=float)    # Float copies: the normalization below is done in place
+    m = np.array(m, dtype=float)
     if a.shape != m.shape:
         raise ValueError("Both vectors must have the same shape.")
     if len(a) != 3:
@@ -721,8 +721,8 @@ def am2DCM(a: np.ndarray, m: np.ndarray, frame: str = 'ENU') -> np.ndarray:
     """
     if frame.upper() not in ['ENU', 'NED']:
         raise ValueError("Wrong coordinate frame. Try 'ENU' or 'NED'")
-    a = np.array(a)
-    m = np.array(m)
+    a = np.array(a, dtype=float)    # Float copies: the normalization below is done in place
+    m = np.array(m, dtype=float)
     H = np.cross(m, a)
     H /= np.linalg.norm(H)
     a /= np.linalg.norm(a)
